@@ -687,6 +687,13 @@ func listSeed(dir string) uint64 {
 	if cur == nil {
 		return 0
 	}
+	// the name of the run's private directory differs from process to process: it must not decide the order
+	for _, r := range []string{cur.Root2, cur.Root} {
+		if r != "" && strings.HasPrefix(dir, r) {
+			dir = "$ROOT" + strings.TrimPrefix(dir, r)
+			break
+		}
+	}
 	return choice.MixS(cur.ListSeed, dir)
 }
 
